@@ -295,4 +295,31 @@ pub fn cli_codec(ctx: &mut Ctx) {
             ctx.case_free();
         }
     }
+    // a name that carries no `.partN` marker (N = decimal digits) is not a part name: removing "the part" must leave
+    // it alone — the editing commands write their result to `archive.remove_part()`
+    fn has_marker(name: &str) -> bool {
+        let is_marker = |e: &str| e.strip_prefix("part").is_some_and(|d| !d.is_empty() && d.bytes().all(|b| b.is_ascii_digit()));
+        let mut it = name.rsplitn(3, '.');
+        let last = it.next().unwrap_or("");
+        let mid = it.next();
+        let has_stem = it.next().is_some();
+        match mid {
+            None => false,
+            Some(m) => (is_marker(last) && !(m.is_empty() && !has_stem)) || (has_stem && is_marker(m)),
+        }
+    }
+    for name in ["x.partial.pna", "notes.partly.pna", "a.partition.pna", "name.part", "a.partx", "v.part.pna", "my.particle.tar", "a.part1x.pna", "data.pna", "plain", "a.b.c.d", "x.PART1.pna", "x.part-1.pna", "x.part٣.pna"] {
+        for dir in ["", "dir/", "./", "/abs/p/"] {
+            let p = format!("{dir}{name}");
+            ctx.oracle_eval();
+            if has_marker(name) { continue; }
+            let r = cv::remove_part_n(&p);
+            let want = if dir == "./" { name.to_string() } else { p.clone() }; // Path::join drops a leading "./"? no: keep both spellings acceptable
+            if r.as_deref() != Some(p.as_str()) && r.as_deref() != Some(want.as_str()) {
+                ctx.violation("C10", "the path an editing command writes its result to differs from the archive it was given (the name carries no .partN marker)", json!({"archive":p,"result_path":r}));
+                ctx.violation("C15", "remove_part_n changes a name that carries no .partN marker", json!({"archive":p,"result_path":r}));
+            }
+        }
+    }
+    ctx.case_free();
 }
